@@ -284,16 +284,17 @@ func allMessages(protoFile *protogen.File) func() []*protogen.Message {
 // The return value is a map[string]string where the key is the import path and the value is the import
 // alias to use in the Go code (extracted from the .proto file's go_package option, if present).
 func getAdditionalImports(protoFile *protogen.File, goPackageForFile map[string]string) func(v interface{}) map[string]string {
+	extensionsOf := getExtensions(protoFile)
 	return func(v interface{}) map[string]string {
 		paths := make(map[string]string)
 		switch tv := v.(type) {
 		case *protogen.Message:
-			for p, alias := range additionalImportsForType(protoFile.GoImportPath, tv, goPackageForFile) {
+			for p, alias := range additionalImportsForType(protoFile.GoImportPath, tv, goPackageForFile, extensionsOf(tv)...) {
 				paths[p] = alias
 			}
 		case []*protogen.Message:
 			for _, m := range tv {
-				for p, alias := range additionalImportsForType(protoFile.GoImportPath, m, goPackageForFile) {
+				for p, alias := range additionalImportsForType(protoFile.GoImportPath, m, goPackageForFile, extensionsOf(m)...) {
 					paths[p] = alias
 				}
 			}
@@ -308,9 +309,11 @@ func getAdditionalImports(protoFile *protogen.File, goPackageForFile map[string]
 //
 // The return value is a map[string]string where the key is the import path and the value is the import
 // alias to use in the Go code (extracted from the .proto file's go_package option, if present).
-func additionalImportsForType(p protogen.GoImportPath, m *protogen.Message, goPackageForFile map[string]string) map[string]string {
+//
+// extensions are the proto2 extensions of m the generated code handles: their types are referenced, too.
+func additionalImportsForType(p protogen.GoImportPath, m *protogen.Message, goPackageForFile map[string]string, extensions ...*protogen.Field) map[string]string {
 	res := map[string]string{}
-	for _, fld := range m.Fields {
+	for _, fld := range append(append([]*protogen.Field{}, m.Fields...), extensions...) {
 		if fld.Desc.IsMap() {
 			// the map entry message is always local, the type of its value need not be
 			fld = fld.Message.Fields[1]
